@@ -158,9 +158,11 @@ TooBig == \E i \in 1..NF : FMaxAbs(F[i].pxt) > 120 * S \/ FMaxAbs(F[i].ptx) > 12
 TBig == \E i \in 1..NF : FMaxAbs(F[i].T) > 120 * S
 Clause == IF C.raised THEN "valid-fit-raised"
           ELSE IF TBig THEN "latent-coordinates-out-of-range-or-not-finite"
+          ELSE IF \E i \in 1..NF : F[i].wmax > 20000000 THEN "ill-posed"      \* the regressor's own weights explode (singular X, no regularisation)
           ELSE IF C.mode = "C03" THEN C03Clause          \* uses latent coordinates, spectrum, predictions and reconstructions only
           ELSE IF TooBig THEN "inconclusive"
           ELSE IF C.mode = "C14" THEN C14Clause ELSE C04Clause
-Verdict == LET c == Clause IN IF c = "ok" THEN <<"ok">> ELSE IF c = "inconclusive" THEN <<"inconclusive", "magnitude">> ELSE <<"rejected", c>>
+Verdict == LET c == Clause IN IF c = "ok" THEN <<"ok">> ELSE IF c = "inconclusive" THEN <<"inconclusive", "magnitude">>
+                             ELSE IF c = "ill-posed" THEN <<"inconclusive", "ill-posed-regression-of-the-supplied-regressor">> ELSE <<"rejected", c>>
 Emit == PrintT(ToJson([k |-> "V", id |-> C.id, v |-> Verdict, ctx |-> [mode |-> C.mode, nfits |-> NF]]))
 =============================================================================
